@@ -211,14 +211,33 @@ def main(ck):
       shifted = rng.rand() < 0.3
       if shifted:
         PB = PB + gg.perp_unit(rng, dvec) * smin * rng.uniform(0, 0.5)
+      coaxial = ip < 2 and ta in ('sphere', 'capsule', 'ellipsoid', 'cylinder') and tb in ('sphere', 'capsule', 'ellipsoid', 'cylinder')
+      # (aligned box/mesh faces are degenerate for EPA witnesses and are exercised by the regular structured poses, where
+      #  the rounding-sensitivity probe may also rotate)
+      if coaxial:
+        # structured degenerate pose: identity orientations (exact rotation matrices) and centres EXACTLY aligned along a
+        # world axis (bit-equal lateral coordinates): GJK ends with a 2-vertex simplex through the origin
+        k = int(rng.randint(3))
+        sgn = float(rng.choice([-1.0, 1.0]))
+        RA = RB = np.eye(3)
+        okind, dkind, shifted = 'identity', 'coaxial-%s%s' % ('+' if sgn > 0 else '-', 'xyz'[k]), False
+        e = np.zeros(3)
+        e[k] = 1.0
+        extA = gr.hsup(gr.Shape(S0.typ, S0.size, np.zeros(3), np.eye(3)), e)
+        extB = gr.hsup(gr.Shape(S1.typ, S1.size, np.zeros(3), np.eye(3)), e)
+        if dclass in ('pen-deep', 'touch') or rng.rand() < 0.5:
+          dclass = 'pen-shallow'
+          delta = -smin * 10 ** rng.uniform(-4, math.log10(0.2))
+        PB = PA.copy()
+        PB[k] = PA[k] + sgn * (extA + extB + delta)
       info = dict(xml=xml, xml_s=xml_s, PA=PA, qA=gg.mat2quat(RA), PB=PB, qB=gg.mat2quat(RB), okind=okind, dkind=dkind, dclass=dclass,
-                  delta=delta, shifted=bool(shifted), tol=tol)
+                  delta=delta, shifted=bool(shifted), tol=tol, coaxial=bool(coaxial))
       soft = evaluate(m, d, m_s, d_s, PA, RA, PB, RB, info, tol, True)
       if soft is None:
         continue          # the collider killed the worker on this pose (reported)
       if soft:
         ok = False
-        for attempt in range(6):
+        for attempt in range(3 if coaxial else 6):     # (a rotation would destroy the exact alignment that is being tested)
           o = scale * rng.uniform(-2, 2, 3) if attempt < 3 else np.zeros(3)
           RBp = RB if attempt < 3 else gg.axis_angle(gg.rand_unit(rng), 1e-10) @ RB
           if evaluate(m, d, m_s, d_s, PA + o, RA, PB + o, RBp, info, tol, False) == []:
@@ -261,7 +280,9 @@ def main(ck):
       return None
     d12, f12, d21, f21 = res['d12'], res['f12'], res['d21'], res['f21']
     bydelta = (not info['shifted']) and abs(info['delta']) <= TOUCH_BAND * tol
-    touching = bydelta or min(abs(d12), abs(d21)) <= TOUCH_BAND * tol
+    touching = bydelta or max(abs(d12), abs(d21)) <= TOUCH_BAND * tol      # both orders (one order alone may be the defect)
+    if info.get('coaxial') and info['delta'] < -TOUCH_BAND * tol and -info['delta'] < 0.3 * smin:
+      touching = False
     labels = ['pair:%s-%s' % pair, 'delta:' + info['dclass'], 'orient:' + info['okind'], 'dir:' + info['dkind']]
     ncon = int(res['ncon'])
     con = res['con'] if ncon else None
@@ -282,6 +303,15 @@ def main(ck):
       else:
         worst['sym'] = max(worst['sym'], abs(d12 - d21) / tol)
       deep = d12 < -DEEP * smin
+      if info.get('coaxial') and info['delta'] < -TOUCH_BAND * tol and -info['delta'] < 0.3 * smin:
+        # aligned smooth shapes: the surface normals at the two axis points are +-axis, so the axis is the (locally unique)
+        # minimum-translation direction and the depth is |delta| by construction
+        for dd, what in ((d12, 'g1,g2'), (d21, 'g2,g1')):
+          if abs(dd - info['delta']) > 0.05 * abs(info['delta']) + tdist:
+            softfail('coaxial pair penetrating by %.6g along %s: mj_geomDistance(%s) = %.6g' % (
+                -info['delta'], info['dkind'], what, dd), 'coaxial-depth')
+        if ncon == 0 and pair != ('box', 'box'):
+          softfail('coaxial pair penetrating by %.6g along %s: no contact' % (-info['delta'], info['dkind']), 'coaxial-contact')
       for (dd, ft, A_, B_, what) in ((d12, f12, S[0], S[1], 'g1,g2'), (d21, f21, S[1], S[0], 'g2,g1')):
         if dd >= distmax:
           softfail('mj_geomDistance(%s) returned distmax %.6g for geoms %.6g apart (construction)' % (what, distmax,
